@@ -132,6 +132,10 @@ func typeClass(t string) string {
 		return "any"
 	}
 
+	if strings.HasPrefix(t, "depth") {
+		return t // struct nesting depth of the struct-copy forms
+	}
+
 	return "sized-int"
 }
 
